@@ -50,6 +50,10 @@ func genC05(g *Gen) {
 			}
 		}
 	}
+	// write timeouts (WithWriteTimeout): frames larger than the socket buffers to a client that
+	// reads in bursts, with a timeout short enough to expire inside a write and one that never does
+	g.emit("c05run", "wt:150:60", "0", listStr([]string{"F1x8388608", "F3x100", "E1x8388608", "F2x4097"}))
+	g.emit("c05run", "wt:20000:5", "0", listStr([]string{"F1x8388608", "F3x100", "E1x2000000", "F2x4097"}))
 	if g.tier == "thorough" {
 		var ws []string
 		for i := 0; i < 300; i++ {
@@ -85,6 +89,17 @@ func runC05(t *Toks) string {
 	opts := "recovery=1 onclose=1 unbind=1"
 	if transport == "tls" {
 		opts += " tls=tls"
+	}
+	// wt:<ms>:<pause>: WithWriteTimeout(ms) on a plain listener; the client reads 256 KiB, pauses
+	// <pause> ms, reads again: writes time out with part of a frame taken.  A Write that returned
+	// nil has put a whole frame on the wire; after a Write that failed nothing but the torn tail follows
+	wtMode, wtPause := false, 0
+	if strings.HasPrefix(transport, "wt:") {
+		var ms int
+		fmt.Sscanf(transport, "wt:%d:%d", &ms, &wtPause)
+		opts += fmt.Sprintf(" writetimeout=%d", ms)
+		wtMode = true
+		transport = "plain"
 	}
 	wp, err := startWorker(opts, false)
 	if err != nil {
@@ -189,7 +204,14 @@ func runC05(t *Toks) string {
 	frames := 0
 	chunk := make([]byte, 1<<16)
 	_ = conn.SetReadDeadline(time.Now().Add(15 * time.Second))
+	if wtMode {
+		chunk = make([]byte, 1<<18)
+	}
 	for len(seen) < len(expected) {
+		if wtMode {
+			time.Sleep(time.Duration(wtPause) * time.Millisecond)
+			_ = conn.SetReadDeadline(time.Now().Add(1500 * time.Millisecond))
+		}
 		n, err := conn.Read(chunk)
 		stream = append(stream, chunk[:n]...)
 		for {
@@ -229,6 +251,26 @@ func runC05(t *Toks) string {
 		if err != nil {
 			break
 		}
+	}
+	if wtMode {
+		time.Sleep(100 * time.Millisecond)
+		evs, _ := wp.snapshotEvents()
+		wrote, failed := 0, 0
+		for _, e := range evs {
+			switch e.kind {
+			case "h-wrote":
+				wrote++
+				if seen[e.args[0]+":"+e.args[1]] == 0 {
+					return fmt.Sprintf("SPECFAIL Write returned nil for frame %s:%s but the frame did not arrive whole (%d frames parsed, %d unparsed bytes)", e.args[0], e.args[1], frames, len(stream))
+				}
+			case "h-write-err":
+				failed++
+			}
+		}
+		if len(stream) != 0 && failed == 0 {
+			return fmt.Sprintf("SPECFAIL %d stray bytes although no Write reported an error", len(stream))
+		}
+		return fmt.Sprintf("OK frames=%d writers=%d wrote=%d", frames, nw, wrote)
 	}
 	if len(seen) != len(expected) {
 		return fmt.Sprintf("SPECFAIL %d of %d frames arrived (torn or lost); %d unparsed bytes", len(seen), len(expected), len(stream))
